@@ -3,8 +3,47 @@ MULTIBYTE_MARKERS_AND_SIZES (+ FIRST/LAST) from the live bs4.dammit.UnicodeDammi
 tables from CPython's codecs; the html5 entity names that MS_CHARS mentions from html.entities."""
 from gen_tables import lean_nat_list, lean_str, chunked_def, HEADER
 
-# single-byte codecs the correspondence uses (the three smart-quote carriers + non-carriers)
-SINGLE_BYTE_CODECS = ["windows-1252", "iso-8859-1", "iso-8859-2", "latin-1", "cp1252", "iso-8859-5"]
+# single-byte codecs the model knows byte by byte (canonical CPython names, `codecs.lookup(x).name`)
+SINGLE_BYTE_CODECS = ["cp1252", "iso8859-1", "iso8859-2", "iso8859-5", "ascii", "mac-roman"]
+
+# Spellings of encoding names the correspondence may hand to UnicodeDammit (known_definite_encodings, declarations).
+# The generated table lists, for each spelling and everything find_codec derives from it, what CPython's registry says.
+NAME_UNIVERSE_BASE = [
+    "windows-1252", "iso-8859-1", "iso-8859-2", "latin-1", "cp1252", "iso-8859-5", "utf-8", "ascii",
+    "WINDOWS-1252", "Windows-1252", "ISO-8859-1", "Iso-8859-2", "ISO-8859-2", "windows_1252", "windows1252", "iso8859-1", "iso8859_2",
+    "iso_8859-1", "latin1", "LATIN-1", "l1", "l2", "latin-2", "cp-1252", "CP1252", "utf8", "UTF-8", "Utf-8", "utf_8", "u8", "ASCII", "us-ascii",
+    "macintosh", "mac-roman", "MACINTOSH", "x-sjis", "shift-jis", "utf-16le", "utf-16be", "utf-32le", "utf-32be", "utf-16",
+    "ISO_8859-1", "ISO_8859-2", "iso_8859-2", "Windows_1252", "WINDOWS_1252", "iso-8859_1", "Latin1", "ISO8859-1", "iso-ir-100", "IBM819", "cp819",
+    "iso-ir-101", "csISOLatin1", "8859", "iso88591", "Cp1252", "windows-1250", "ISO-8859-15", "iso-8859-15",
+    "bogus-enc", "no-such-codec", "windows-1252 ", "iso-8859-1x", "x", "-", "big5", "koi8-r",
+]
+
+
+def name_universe():
+    """Closure of the base spellings under what find_codec looks at: alias, '-' removed, '-' -> '_', lower()."""
+    from bs4.dammit import UnicodeDammit as U
+    seen, todo = [], list(NAME_UNIVERSE_BASE)
+    while todo:
+        n = todo.pop(0)
+        if n in seen or n == "":
+            continue
+        seen.append(n)
+        todo += [U.CHARSET_ALIASES.get(n, n), n.replace("-", ""), n.replace("-", "_"), n.lower()]
+    return seen
+
+
+def codec_status(name: str) -> int:
+    """0 = codecs.lookup fails; 1 = utf-8; 2 = some codec the model does not know byte by byte; 3+i = SINGLE_BYTE_CODECS[i]."""
+    import codecs
+    try:
+        canon = codecs.lookup(name).name
+    except (LookupError, ValueError):
+        return 0
+    if canon == "utf-8":
+        return 1
+    if canon in SINGLE_BYTE_CODECS:
+        return 3 + SINGLE_BYTE_CODECS.index(canon)
+    return 2
 
 
 def _opt(x):
@@ -57,8 +96,12 @@ def gen_detwingle():
     for i, c in enumerate(SINGLE_BYTE_CODECS):
         t += f"/-- bytes([b]).decode({c!r}) for b in range(256); none = UnicodeDecodeError -/\n"
         t += chunked_def(f"codec{i}", "Option Nat", [_opt(x) for x in decode_table(c)], chunk=64)
-    t += "def codecs : List (List Nat × List (Option Nat)) := [" + ", ".join(
-        f"({lean_str(c)}, codec{i})" for i, c in enumerate(SINGLE_BYTE_CODECS)) + "]\n"
+    t += "def codecTables : List (List (Option Nat)) := [" + ", ".join(f"codec{i}" for i in range(len(SINGLE_BYTE_CODECS))) + "]\n"
+    t += "/-- CPython's codec registry on a finite universe of spellings: 0 = lookup fails, 1 = utf-8, 2 = another codec, 3+i = codecTables[i] -/\n"
+    t += chunked_def("codecNames", "List Nat × Nat", [f"({lean_str(n)}, {codec_status(n)})" for n in name_universe()])
+    t += "/-- UnicodeDammit.CHARSET_ALIASES -/\n"
+    t += "def charsetAliases : List (List Nat × List Nat) := [" + ", ".join(
+        f"({lean_str(k)}, {lean_str(v)})" for k, v in U.CHARSET_ALIASES.items()) + "]\n"
     t += "/-- the Windows-1252 meaning of every byte (CPython's cp1252 codec): the reference of the property -/\n"
     t += "def cp1252 : List (Option Nat) := codec0\n"
     # html5 named references that MS_CHARS emits in html mode (name without '&', with ';')
